@@ -226,13 +226,17 @@ func VerifC09DeleteEntries() {
 	f := vRepoUniverse(false)
 	stores := vCtxStoresAll(f.meta, f.vmeta, newVStore("blob"))
 	beforeM, beforeV := vSnapshot(f.meta), vSnapshot(f.vmeta)
+	// up to two names to delete, each one symbolic byte (may or may not name a stored path)
 	var toDelete []string
-	del := map[string]bool{}
-	for _, n := range []string{"a", "c", "zz"} {
-		if vChoose("del_"+n, 2) == 1 {
-			toDelete = append(toDelete, n)
-			del[n] = true
+	for i := vChoose("toDelete", 3); i > 0; i-- {
+		toDelete = append(toDelete, vString("del", 1))
+	}
+	deleted := func(name string) bool {
+		r := false
+		for _, d := range toDelete {
+			r = vOr(r, vStrEqual(d, name))
 		}
+		return r
 	}
 	f.meta.ops = nil
 	err := DeleteEntriesFromRepo("r", stores, toDelete)
@@ -249,7 +253,7 @@ func VerifC09DeleteEntries() {
 		vAssert(yaml.Unmarshal([]byte(v), &old) == nil && yaml.Unmarshal(nv, &cur) == nil, "lists-readable")
 		var want []model.BundleEntry
 		for _, e := range old.BundleEntries {
-			if !del[e.NameWithPath] {
+			if !deleted(e.NameWithPath) {
 				want = append(want, e)
 			}
 		}
